@@ -151,7 +151,9 @@ CLAIMS = {
         note=BASE_NOTE + " Generated: one or two concatenations over the same parent variable, the parent variable optionally selected as well (a concatenation binds only itself; a defect here was repaired in /repo); conditions on the parent variable outside the concatenations are not generated (the concatenation would then range over the bound parent only)."),
     'C18': dict(
         text=("Machine-checked: C18_rewrite_sat (truth is invariant under every composition of: and/or commutativity and re-association, "
-              "comparison mirroring, contains vs in_), C18_invariant and C18_domain_permutation (hence the result set, via C02), C18_tables (fold "
+              "comparison mirroring, contains vs in_), C18_invariant and C18_domain_permutation (hence the result set, via C02), C18_invariant_dedup "
+              "(the same invariance for the evaluator WITH its de-duplication of rows, whose requirement tables are re-extracted from the "
+              "source on every run: whatever the rewrites do to the order of operands, every projection keeps its result set), C18_tables (fold "
               "direction and builders regenerated from the source). Tie: metamorphic pairs - a random query and a random rewrite of it (incl. "
               "declaration/selection order and permuted domains) - both compared with each other, the model and the specification; 40 % of the "
               "pairs are a two-variable conjunction under a disjunction with one variable selected (false rows of the conjunction must be kept "
@@ -204,7 +206,7 @@ CLAIMS = {
               "construction style) - every query result compared BY IDENTITY and in order with the registry model and as a multiset with "
               "the harness's own log, the initialisation counter compared after every step."),
         design='7/C14', technique='Coq proof (refinement of the registry model to a construction log, invariant by induction over histories) + step-wise correspondence by object identity',
-        note=BASE_NOTE + " Queries are declared and evaluated at the same point of the history (a no-domain variable declared earlier fixes its set of class keys at declaration when the registry is non-empty; that laziness is outside the property's histories). Constructions whose __init__ raises and inference into a class while iterating that class's own registry are outside the modelled histories (see DESIGN.md)."),
+        note=BASE_NOTE + " Queries are declared and evaluated at the same point of the history, or declared while the registry is EMPTY (start of the history / right after a clear) and evaluated later - they then see what has been constructed by the time they are evaluated; a no-domain variable declared on a non-empty registry fixes its set of class keys at declaration (that laziness is outside the property's histories). Constructions whose __init__ raises and inference into a class while iterating that class's own registry are outside the modelled histories (see DESIGN.md)."),
     'C12': dict(
         text=("Machine-checked for EVERY rule program over one rule variable - base rule, refinements and alternatives nested to any depth "
               "and in any order under the base, under refinements and under alternatives: C12_builders / C12_shape (the in-place edits of "
